@@ -211,6 +211,23 @@ def gen_cases(rng, tier):
         cases.append(v2_random_case(rng, i))
     for i in range(150 if tier == 'quick' else 4000):
         cases.append(v2_release_case(rng, i))
+    # more than 16 chords that contain the pressed keys (the candidate list of the implementation holds 16): the chord that is
+    # exactly the pressed set, written after them, still fires when the timeout passes or a participant is released
+    import itertools
+    others = ['d', 'f', 'g', 'h', 'j']
+    subsets = [c for r in range(1, 6) for c in itertools.combinations(others, r)]
+    for i in range(12 if tier == 'quick' else 200):
+        n = rng.choice([15, 16, 17, 20, 31])
+        sup = rng.sample(subsets, n)
+        chords = [('a', 's') + c for c in sup]
+        pos = rng.choice([len(chords), len(chords), 0, rng.randint(0, len(chords))])
+        chords.insert(pos, ('a', 's'))
+        cfg = ('(defcfg concurrent-tap-hold yes)\n(defsrc a s d f g h j k)\n(deflayer base a s d f g h j k)\n(defchordsv2 %s)'
+               % ' '.join('(%s) (unicode %s) 60 %s ()' % (' '.join(c), 'abcdefghijklmnopqrstuvwxyzABCDEFGH'[j], rng.choice(['first-release', 'all-released'])) for j, c in enumerate(chords)))
+        first, second = rng.sample(['a', 's'], 2)
+        h = ['t5', 'd%d' % V2KEYS[first], 't%d' % rng.randint(1, 6), 'd%d' % V2KEYS[second]]
+        h += ['t%d' % rng.choice([3, 80]), 'u%d' % V2KEYS[first], 't4', 'u%d' % V2KEYS[second], 't200', 'd37', 't5', 'u37', 't300', 'q']
+        cases.append({'id': 'c09-v2cap-%d' % i, 'cfg': cfg, 'hist': h, 'sub': 'ksim', 'tags': {'mode': 'v2-many-supersets', 'nchords': n + 1}})
     return cases
 
 
